@@ -123,7 +123,7 @@ package parallel
 //@ func GenerateIndexes
 //@   tags C14, C17
 //@   safety alloc
-//@   requires spec != nil && spec.WithCount != nil ==> *spec.WithCount >= 0
+//@   assumes passed-admission: spec != nil && spec.WithCount != nil ==> *spec.WithCount >= 0
 //@   loop 1 invariant 0 <= i && i <= *spec.WithCount && len(indexes) == *spec.WithCount
 //@   loop 1 invariant forall k int :: 0 <= k && k < i ==> indexes[k].IndexNumber != nil && *indexes[k].IndexNumber == k && indexes[k].IndexKey == "" && indexes[k].MatrixValues == nil
 //@   loop 2 invariant -1 <= rangeindex && rangeindex < len(spec.WithKeys) && len(indexes) == rangeindex + 1
